@@ -124,7 +124,7 @@ def h_worker(g0: int, g1: int, g2: int, d0: int, d1: int, d2: int, v0: int, v1: 
 
 
 # --------------------------------------------------------------------------------------------------- H2
-def run_step(delta, has_ct, pressure_at, remaining, deleting, with_delete_handler, handled, changed):
+def run_step(delta, has_ct, pressure_at, remaining, deleting, with_delete_handler, handled, changed, ev_result=False):
     meta = {'annotations': {}}
     if deleting:
         meta['deletionTimestamp'] = '2020-01-01T00:00:00Z'
@@ -138,7 +138,10 @@ def run_step(delta, has_ct, pressure_at, remaining, deleting, with_delete_handle
     log = []
 
     @kopf.on.event(PLURAL, id='ev', registry=w.registry)
-    async def ev(**_): log.append(('event', loop.time()))
+    async def ev(**_):
+        log.append(('event', loop.time()))
+        if ev_result:
+            return {'seen': 'y'}        # a result of a raw-event handler: something is accumulated before the barrier
 
     @kopf.index(PLURAL, id='idx', registry=w.registry)
     async def idx(**_):
@@ -197,8 +200,9 @@ def h_step(delta: int, has_ct: bool, has_pressure: bool, pressure_at: int, remai
     if remaining and deleting:
         return True
     try:
+        ev_result = vkopf.cell().get('ev_result', False)
         log, start, t_end, fins, gone, w = run_step(delta, has_ct, pressure_at if has_pressure else None, remaining,
-                                                      deleting, with_delete_handler, handled, changed)
+                                                      deleting, with_delete_handler, handled, changed, ev_result=ev_result)
     except (Deadlock, Diverged, Livelock):
         return vkopf.verdict(False)
     ok = True
@@ -209,7 +213,9 @@ def h_step(delta: int, has_ct: bool, has_pressure: bool, pressure_at: int, remai
     if not deleting and times['daemon'] != [start]:
         ok = False
     woken = has_pressure and pressure_at < delta
-    consistent = (not has_ct) or (not woken)
+    # with something accumulated before the barrier the framework does not wait at all: it delivers the patch and leaves the
+    # change handlers to a later, consistent cycle
+    consistent = (not has_ct) or (not woken and not ev_result)
     something_to_handle = (not handled) or changed or deleting
     if times['change']:
         vkopf.witness('change_ran')
@@ -317,6 +323,11 @@ def obligations():
         obs.append(Ob('h_step', {'pin': {'remaining': remaining, 'deleting': deleting, 'has_ct': has_ct, 'handled': handled,
                                          'has_pressure': has_pressure}}, tiers=('quick',), timeout=900, path_timeout=200))
     obs.append(Ob('h_step', {}, tiers=('quick', 'thorough'), timeout=600, path_timeout=200, twins=['change_ran', 'woken_skipped'], main=False))
+    for (deleting, handled) in ((False, True), (True, True)):
+        obs.append(Ob('h_step', {'ev_result': True, 'pin': {'remaining': False, 'deleting': deleting, 'has_ct': True, 'handled': handled,
+                                                           'has_pressure': False}}, tiers=('quick',), timeout=900, path_timeout=200))
+    obs += split(Ob('h_step', {'ev_result': True}, timeout=1500, path_timeout=200, tiers=('thorough',)), remaining=[False], deleting=B, has_ct=B,
+                 handled=B, has_pressure=B)
     obs += split(Ob('h_step', {}, timeout=1500, path_timeout=200, tiers=('thorough',)), remaining=B, deleting=B, has_ct=B, handled=B, has_pressure=B)
     obs.append(Ob('h_own_write_version', {}, timeout=900, path_timeout=200, twins=['wrote']))
     obs.append(Ob('lemma', {}, engine='smt', timeout=60))
